@@ -85,6 +85,9 @@ func (t *ServerTransport) Handshake(handshakePacket *parser.Packet, w http.Respo
 	}
 	if t.readLimit != 0 {
 		t.conn.SetReadLimit(t.readLimit)
+	} else {
+		// `DisableMaxBufferSize` is set. Without this the websocket library applies its own default limit of 32 KiB.
+		t.conn.SetReadLimit(-1)
 	}
 	// sid is only for webtransport
 	return "", t.writeHandshakePacket(handshakePacket)
